@@ -520,6 +520,48 @@ def dir_model(chk, cat):
         chk.violation('%s:dir-model:interference' % cat, 'in the analyze_dir model the findings of one file differ with siblings / listing order / pattern order: %r' % sorted(seen), {})
 
 
+def binary_coselection(chk):
+    """whole runs of the compiled binary: the lines the report lists for (file, pattern) are those of analyze_for_* on the file alone, whichever
+    other patterns are selected with it (none, one of another category, several) and whichever other files lie in the directory"""
+    import subprocess
+    snip = {'sstore': ('opt', 'uint256 st; function w() public { st = 1; }'), 'divide_before_multiply': ('vul', 'function d(uint256 a) public { a / 2 * 3; }'),
+            'private_vars_leading_underscore': ('qa', 'uint256 private pv;'), 'constructor_order': ('qa', 'function e() public {} constructor() {}')}
+    order = list(snip)
+    text = 'pragma solidity 0.8.16;\ncontract Sel {\n' + ''.join('    %s\n' % snip[k][1] for k in order) + '}\n'
+    quiet = 'pragma solidity 0.8.16;\ncontract Quiet {\n    function _q() private {}\n    function r() internal {}\n}\n'      # a QA finding only (private_func_leading_underscore)
+    key = {'opt': 'optimizations', 'vul': 'vulnerabilities', 'qa': 'qa'}
+    p0 = chk.native.file(text)
+    alone = {}
+    for k in order:
+        r = chk.native.run([['analyze', snip[k][0], k, p0]])[0]
+        alone[k] = sorted(int(x) for x in r[1].split(',') if x) if r[0] == 'OK' else None
+    binary = os.path.join(chk.world.build, 'solstat')
+    selections = [['private_vars_leading_underscore'], ['constructor_order', 'private_vars_leading_underscore'], ['private_vars_leading_underscore', 'sstore'],
+                  ['private_vars_leading_underscore', 'divide_before_multiply'], ['sstore'], ['divide_before_multiply'], order, order[::-1]]
+    for sel in selections:
+        for with_sibling in (False, True):
+            d = os.path.join(chk.native.dir, 'cosel%d' % chk.native.n)
+            chk.native.n += 1
+            os.makedirs(os.path.join(d, 'proj'))
+            open(os.path.join(d, 'proj', 'Sel.sol'), 'w').write(text)
+            if with_sibling:
+                open(os.path.join(d, 'proj', 'Quiet.sol'), 'w').write(quiet)
+            cfg = 'path = "proj"\n' + ''.join('%s = [%s]\n' % (key[c], ', '.join('"%s"' % k for k in sel if snip[k][0] == c)) for c in ('opt', 'vul', 'qa'))
+            open(os.path.join(d, 'cfg.toml'), 'w').write(cfg)
+            p = subprocess.run([binary, '--toml', 'cfg.toml'], cwd=d, stdout=subprocess.PIPE, stderr=subprocess.PIPE, text=True)
+            chk.validated += 1
+            rp = os.path.join(d, 'solstat_report.md')
+            rep = open(rp).read() if os.path.exists(rp) else ''
+            listed = sorted({int(m.group(1)) for m in re.finditer(r'^- Sel\.sol:(\d+)$', rep, re.M)})
+            want = sorted({l for k in sel for l in (alone[k] or [])})
+            if p.returncode != 0 or listed != want:
+                chk.violation('binary:co-selected-patterns', 'solstat with the patterns %r selected%s: exit status %d, the report lists the lines %r of Sel.sol, analysed alone the selected patterns give %r' % (
+                    sel, ' and a sibling file' if with_sibling else '', p.returncode, listed, want), {'job': 'solstat', 'config': cfg, 'source': text, 'observed': rep[:300]})
+            else:
+                chk.ok()
+    chk.sample({'binary co-selection': '%d pattern selections x with / without a sibling file through the compiled binary' % len(selections)})
+
+
 def body(chk):
     chk.bounds = {'purity': 'analyze_for_* executed from MIR on a probe file with symbolic file number and ARBITRARY iteration order of every HashSet/HashMap (all orders of up to 4 elements; larger collections: next element = first or last of the rest; at most 7 order decisions per path, then as given); %d detectors' % sum(len(v) for v in PROBE_DETECTORS.values()),
                   'directory model': 'one file with / without siblings and sub-directories, every listing order, both orders of two patterns',
@@ -537,6 +579,7 @@ def body(chk):
     if state:
         chk.undecide('the crate mentions global / thread-local state (%r): the symbolic claim does not cover it, native call sequences decide' % (state[:4] if isinstance(state, list) else state,))
     native_sequences(chk)
+    binary_coselection(chk)
 
 
 if __name__ == '__main__':
